@@ -1,4 +1,4 @@
-\* exhaustive, thorough: deep literals - nesting <= 6, <= 2 items per container, <= 8 nodes
+\* exhaustive, thorough: deep literals - nesting <= 6, <= 2 items per container, <= 7 nodes
 CONSTANTS
   Dev = {}
   Modes = {"lit"}
@@ -9,8 +9,8 @@ CONSTANTS
   MaxFields = 2
   MaxDepth = 6
   MaxItems = 2
-  MaxNodes = 8
-  Leaves = {1, 2}
+  MaxNodes = 7
+  Leaves = {1}
   GenSizes <- SizesNone
   NVals = 0
 SPECIFICATION Spec
